@@ -73,7 +73,7 @@ def repo_hash():
 
 
 def harness_hash():
-    return hash_tree([HARNESS, SPEC, os.path.join(VERIF, "lib"), os.path.join(VERIF, "bin")])
+    return hash_tree([HARNESS, SPEC], exts=(".go", ".mod", ".tla", ".cfg"))
 
 
 def workdir(name):
